@@ -44,13 +44,13 @@ func (eng *Engine) specForFn(fn *ssa.Function) *FuncSpec {
 func (e *Exec) callWith(f *frame, in ssa.Instruction, cc *ssa.CallCommon, fnv Val, args []Val, h *Heap, g string) (Val, *Heap, string) {
 	res, hout, gout := e.callWith0(f, in, cc, fnv, args, h, g)
 	if e.topSpec != nil && e.specDepth == 0 && e.pure == 0 && gout != "false" {
-		hout = e.atCallSets(cc, fnv, args, res, hout, gout)
+		hout = e.atCallSets(cc, fnv, args, res, hout, gout, h)
 	}
 	return res, hout, gout
 }
 
 // atCallSets: ghost assignments the contract under verification attaches to calls of a given callee.
-func (e *Exec) atCallSets(cc *ssa.CallCommon, fnv Val, args []Val, res Val, h *Heap, g string) *Heap {
+func (e *Exec) atCallSets(cc *ssa.CallCommon, fnv Val, args []Val, res Val, h *Heap, g string, pre *Heap) *Heap {
 	var key string
 	for _, c := range e.topSpec.Clauses {
 		if c.Kind != KAtCallSet {
@@ -69,6 +69,7 @@ func (e *Exec) atCallSets(cc *ssa.CallCommon, fnv Val, args []Val, res Val, h *H
 		if !strings.HasSuffix(key, c.Callee) {
 			continue
 		}
+		e.clauseHit[c] = true
 		full := append([]Val{}, e.topFrame.params...)
 		if cc.IsInvoke() {
 			full = append(full, fnv)
@@ -86,7 +87,7 @@ func (e *Exec) atCallSets(cc *ssa.CallCommon, fnv Val, args []Val, res Val, h *H
 		}
 		h = h.clone()
 		a := e.addrOf(e.evalSpecVal(varFn, nil, h))
-		cond := e.evalSpec(condFn, full, h, nil)
+		cond := e.evalSpec(condFn, full, h, pre) // old(...) in the condition = the state before the call
 		val := e.evalSpecVal(valFn, full, h)
 		old := e.load(h, a)
 		e.storeAt(h, a, e.named("gs", a.Typ, ite(cond, val.T, old)))
@@ -911,6 +912,7 @@ func (e *Exec) contractCall(f *frame, in ssa.Instruction, sp *FuncSpec, key stri
 				continue
 			}
 			top := e.topFrame
+			e.clauseHit[c] = true
 			t := e.evalSpec(e.eng.ld.specFunc(e.topSpec, c), append(append([]Val{}, top.params...), args...), h, nil)
 			e.addObligation(f, "atcall", c, fmt.Sprintf("%s.%s@%s%d", short, labelOr(c, "atcall"), f.path, ord), g, t, in.Pos())
 		}
